@@ -120,3 +120,43 @@ Definition render_diagnostic (s : bytes) (dspan : nat * nat) (labels : list (nat
 (* render_ansi: compute_gutter_width (line_col_from_span of every span) + every diagnostic *)
 Definition render_ansi (s : bytes) (diags : list ((nat * nat) * list (nat * nat))) : option (list geometry) :=
   all_some (map (fun d => render_diagnostic s (fst d) (snd d)) diags).
+
+(* ------------------------------------------------------------------ the text of the source lines
+   (what render_diagnostic prints after the gutters); used by the correspondence only.
+   expand_tabs: one column per character, a tab becomes spaces up to the next multiple of
+   TAB_WIDTH. *)
+Fixpoint expand_tabs_from (col : nat) (text : bytes) : bytes :=
+  match text with
+  | [] => []
+  | b :: t =>
+      if is_cont b then b :: expand_tabs_from col t
+      else if (b =? 9)%Z then
+        repeat 32%Z (tab_width - col mod tab_width) ++ expand_tabs_from (col + (tab_width - col mod tab_width)) t
+      else b :: expand_tabs_from (col + 1) t
+  end.
+Definition expand_tabs (text : bytes) : bytes := expand_tabs_from 0 text.
+
+(* Some None: label on the diagnostic's own line; Some (Some l): the expanded source line shown
+   for a cross-line label *)
+Definition cross_line_src (s : bytes) (line : nat) (lspan : nat * nat) : option (option bytes) :=
+  match line_col_from_span s (fst lspan) with
+  | None => None
+  | Some (lline, _, lline_start, lline_end) =>
+      if lline =? line then Some None
+      else match slice s lline_start lline_end with
+           | Some t => Some (Some (expand_tabs t))
+           | None => None
+           end
+  end.
+
+(* (expanded line of the diagnostic, expanded lines of the cross-line labels in label order) *)
+Definition render_lines (s : bytes) (dspan : nat * nat) (labels : list (nat * nat))
+  : option (bytes * list (option bytes)) :=
+  match line_col_from_span s (fst dspan) with
+  | None => None
+  | Some (line, _, line_start, line_end) =>
+      match slice s line_start line_end, all_some (map (cross_line_src s line) labels) with
+      | Some t, Some xs => Some (expand_tabs t, xs)
+      | _, _ => None
+      end
+  end.
